@@ -464,7 +464,7 @@ def c14(tier, seed, replay):
                     break
                 idx, rec = rej
                 out.append(dict(cmd='iters', kind=job['kind'], instance=job['inst']['name'], cfg=job['inst']['cfg'], record=rec, path=rec.get('path'),
-                                op=dict(op='iter', list=rec.get('list'), fam=rec.get('fam'), word=''.join(rec.get('word', [])))))
+                                op=dict(op='iter', list=rec.get('list'), fam=rec.get('fam'), word=' '.join((st[0] if st[1] < 0 else 'nth%s(%d)' % ('' if st[0] == 'n' else '_back', st[1])) for st in rec.get('word', [])))))
                 nxt = cur + '.c%d' % attempt
                 k = 0
                 with open(cur) as f, open(nxt, 'w') as g:
